@@ -355,6 +355,20 @@ pub fn candidates(case: &Case) -> Vec<Case> {
                         out.push(Case::Iter(x));
                     }
                 }
+                crate::iters::Container::BitsGrown { frozen, zeros, via_extend, tail } => {
+                    for t in string_candidates(tail) {
+                        let mut x = c.clone();
+                        x.container = crate::iters::Container::BitsGrown { frozen: *frozen, zeros: *zeros, via_extend: *via_extend, tail: t };
+                        out.push(Case::Iter(x));
+                    }
+                    for z in [0, *zeros / 2, zeros.saturating_sub(512), zeros.saturating_sub(1)] {
+                        if z < *zeros {
+                            let mut x = c.clone();
+                            x.container = crate::iters::Container::BitsGrown { frozen: *frozen, zeros: z, via_extend: *via_extend, tail: tail.clone() };
+                            out.push(Case::Iter(x));
+                        }
+                    }
+                }
                 crate::iters::Container::TreeDefault { .. } | crate::iters::Container::FlatDefault { .. } => {}
             }
             out
